@@ -589,6 +589,7 @@ class Builder(object):
         self.sources = []
         self.sinks = []
         self.src_rules = []
+        self.decoy_defs = set()
         self.snk_rules = []
         self.chains_meta = []
         self.param_sites = []
@@ -657,8 +658,20 @@ class Builder(object):
             self.snk_rules.append(r)
 
     # -- sources ------------------------------------------------------------------------------
-    def source_expr(self, kind, sid):
+    def source_expr(self, kind, sid, cur_file=0):
         sfx = str(sid) if self.uniq else ""
+        if kind in ("decoy_call_suffix", "decoy_call_prefix"):
+            # a function of the program whose name only ends / starts with the name of a call source rule: not a source
+            name = "source" + sfx
+            self.add_src_rule("call", name)
+            dn = ("pre_" + name) if kind == "decoy_call_suffix" else (name + "_post")
+            if dn not in self.decoy_defs:
+                self.decoy_defs.add(dn)
+                fr = Frame("func", cur_file, name=dn, params=[])
+                fr.body.append(Line("return 0"))
+                self.files[cur_file].frames.append(fr)
+            self.sources[sid]["decoy"] = True
+            return dn + "()"
         if kind == "call":
             name = "source" + sfx
             self.add_src_rule("call", name)
@@ -937,7 +950,7 @@ class Builder(object):
             sid = self.new_source(skind, at)
             self.sources[sid]["secondary"] = True
             t = self.var("s")
-            E("%s = %s" % (t, self.source_expr(skind, sid)), tag=("src", sid))
+            E("%s = %s" % (t, self.source_expr(skind, sid, cur.file)), tag=("src", sid))
             E("%s = %s + %s" % (w, v, t))
             k = "binop_merge"
         elif k == "tee":
@@ -1131,7 +1144,7 @@ class Builder(object):
         else:
             sid = self.new_source(src_kind, 0)
             v = self.var("s")
-            cur.emit("%s = %s" % (v, self.source_expr(src_kind, sid)), tag=("src", sid))
+            cur.emit("%s = %s" % (v, self.source_expr(src_kind, sid, cur.file)), tag=("src", sid))
         at = 0
         for link in self.plan_links(chain.get("links", [])):
             cur, v, lab = self.apply_link(cur, v, link, at)
